@@ -15,24 +15,24 @@ CHECKS = {
     ),
     "C08": dict(
         category="proof",
-        text="Lean 4 theorems for every order k: the code's own get_moment formulas (Uniform closed form for a != b, Exponential, Categorical and DiscreteUniform loops, Bernoulli for k >= 1 with a counterexample theorem at k = 0) equal the specification moments; the four DistTransformer rewritings (Normal incl. irrational sigma, Uniform, Laplace, Exponential) are identities of moment sequences (binomial transform satisfies the target recurrence / closed form); finite families' moments are proved to be the expectation under the finite law (Finset sum and Lebesgue integral against a weighted Dirac sum) and the k-th derivative at 0 of their mgf; Uniform, Exponential and Gamma specification moments are proved equal to the integral of x^k against the density. For Normal, Laplace and Beta the 'true moment' is the textbook recurrence (Laplace additionally proved equivalent to the mgf coefficient recurrence and the +-Exp mixture), cross-checked on every run against quadrature of the density, not proved; TruncNormal is compared with 50-digit quadrature only. The tie to the code is differential and sampled: get_moment/get_support/is_discrete/mgf/cf/mgf_exists_at of all ten classes on rational, float-literal and symbolic parameters, the real DistTransformer on small programs (structure of the rewritten pair = premises of the theorems) and E(y^k)(n) through the whole pipeline.",
+        text="Lean 4 theorems for every order k: the code's own get_moment formulas (Uniform closed form for a != b, Exponential, Categorical and DiscreteUniform loops, Bernoulli) equal the specification moments; the four DistTransformer rewritings (Normal incl. irrational sigma, Uniform, Laplace, Exponential) are identities of moment sequences (binomial transform satisfies the target recurrence / closed form); finite families' moments are proved to be the expectation under the finite law (Finset sum and Lebesgue integral against a weighted Dirac sum) and the k-th derivative at 0 of their mgf; Uniform, Exponential and Gamma specification moments are proved equal to the integral of x^k against the density. For Normal, Laplace and Beta the 'true moment' is the textbook recurrence (Laplace additionally proved equivalent to the mgf coefficient recurrence and the +-Exp mixture), cross-checked on every run against quadrature of the density, not proved; TruncNormal is compared with 60-digit quadrature only (relative tolerance 1e-30). The tie to the code is differential and sampled: get_moment/get_support/is_discrete/mgf/cf/mgf_exists_at of all ten classes on rational, float-literal and symbolic parameters, the real DistTransformer on small programs (structure of the rewritten pair = premises of the theorems) and E(y^k)(n) through the whole pipeline.",
         design_ref="§4 C08",
-        note="Trusted: Lean kernel + propext/Classical.choice/Quot.sound; Lean compiler for polar-model; textbook recurrences for Normal/Laplace/Beta and mpmath quadrature (oracle); sympy diff/series/limit for derivatives of the code's mgf/cf at 0; harness parameter generator and canonicalisation. Known findings F6, F40-F43 are recorded in known_findings.json and attributed by exact signature / in-memory repair.",
+        note="Trusted: Lean kernel + propext/Classical.choice/Quot.sound; Lean compiler for polar-model; textbook recurrences for Normal/Laplace/Beta and mpmath quadrature (oracle); sympy diff/series/limit for derivatives of the code's mgf/cf at 0; harness parameter generator and canonicalisation. The defects found (F6, F40-F43) were repaired in /repo; the check excuses nothing. Note: TruncNormal moments are 50-digit decimals returned as rationals and still flagged exact (documented disclaimer).",
         technique="Lean 4 proof (moment-sequence identities, integral ties) + differential correspondence of the real distribution classes and DistTransformer against the Lean specification",
     ),
     "C12": dict(
         category="proof",
-        text="PARTIAL. Lean 4 theorems about a hand-written model of simulation/simulator.py whose random sources are an explicit oracle tape: sim_eq_sem (for every program -- expression/choice/Bernoulli/Categorical/DiscreteUniform assignments, guarded assignments with default, if/elif/else, simultaneous assignment through the parser's temporaries, loop guard with stuttering -- every n and every initial state, the strict path enumeration of the model equals Polar.run of the reference semantics weight by weight and store by store whenever both return), simPaths_sound (every enumerated tape replays through the tape-driven interpreter to the listed state), simPaths_strict, sampler_params_agree / sampler_support_agree (the scipy call coded in each sample() is the documented parameterisation with the declared support, all families but one) and the TruncNormal counterexample with its characterisation (coded support [mu+sigma*a, mu+sigma*b], right iff mu=0 and sigma=1). Tie to the code (sampled, differential): the real Simulator(n).simulate / execute on the parsed un-normalised program with random.choices, random.choice and every scipy rvs scripted, ALL paths of seeded discrete programs (dyadic constants, n<=3 quick / 4 thorough, templates to n=7) enumerated; tapes, weights and final states equal the model's sim_paths, and the weighted states after every iteration equal the exact joint law (op dist) as exact rationals; the arguments actually passed to scipy equal samplerCall and are compared with samplerSpecCall; support membership of 2000 (quick) real samples under a fixed numpy seed; the CLI SimulationAction on scripted runs. What the model cannot exhibit and is therefore NOT covered: IEEE rounding in arithmetic and in evaluate_cop on float states, the internals of scipy's and random's generators (their laws are taken from the documentation), EvaluationException timing on symbolic parameters; continuous draws are outside sim_eq_sem (sampler theorems only).",
+        text="PARTIAL. Lean 4 theorems about a hand-written model of simulation/simulator.py whose random sources are an explicit oracle tape: sim_eq_sem (for every program -- expression/choice/Bernoulli/Categorical/DiscreteUniform assignments, guarded assignments with default, if/elif/else, simultaneous assignment through the parser's temporaries, loop guard with stuttering -- every n and every initial state, the strict path enumeration of the model equals Polar.run of the reference semantics weight by weight and store by store whenever both return), simPaths_sound (every enumerated tape replays through the tape-driven interpreter to the listed state), simPaths_strict, sampler_params_agree / sampler_support_agree (the scipy call coded in each sample() is the documented parameterisation with the declared support, for every family; TruncNormal with sigma^2 != 0) and truncnormal_support (support exactly [a, b] for sigma > 0). Tie to the code (sampled, differential): the real Simulator(n).simulate / execute on the parsed un-normalised program with random.choices, random.choice and every scipy rvs scripted, ALL paths of seeded discrete programs (dyadic constants, n<=3 quick / 4 thorough, templates to n=7) enumerated; tapes, weights and final states equal the model's sim_paths, and the weighted states after every iteration equal the exact joint law (op dist) as exact rationals; the arguments actually passed to scipy equal samplerCall and are compared with samplerSpecCall; support membership of 2000 (quick) real samples under a fixed numpy seed; the CLI SimulationAction on scripted runs. What the model cannot exhibit and is therefore NOT covered: IEEE rounding in arithmetic and in evaluate_cop on float states, the internals of scipy's and random's generators (their laws are taken from the documentation), EvaluationException timing on symbolic parameters; continuous draws are outside sim_eq_sem (sampler theorems only).",
         design_ref="§4 C12, §2.2, notes/C12.md",
-        note="Trusted: Lean kernel + propext/Classical.choice/Quot.sound; Lean compiler for polar-model; harness generator/printer, dyadic rewriting of constants, scripted sources (probability of the i-th answer = w_i/sum(w) for random.choices, 1/len for random.choice, p/1-p for bernoulli.rvs); scipy.stats documentation of loc/scale/shape; exactness of double arithmetic on dyadic rationals within 53 bits. Known findings F7 (TruncNormal.sample raw bounds) and F45 (simulated P(X >= c) loses the boundary X = c) are reported as KNOWN-FINDING.",
+        note="Trusted: Lean kernel + propext/Classical.choice/Quot.sound; Lean compiler for polar-model; harness generator/printer, dyadic rewriting of constants, scripted sources (probability of the i-th answer = w_i/sum(w) for random.choices, 1/len for random.choice, p/1-p for bernoulli.rvs); scipy.stats documentation of loc/scale/shape; exactness of double arithmetic on dyadic rationals within 53 bits. Findings F7 (TruncNormal.sample raw bounds) and F45 (simulated P(X >= c) lost the boundary X = c) were found by this check and are fixed in /repo; a recurrence is a VIOLATION.",
         technique="Lean 4 proof (simulator model = reference semantics by mutual induction; sampler parameterisations) + exhaustive path enumeration of the real simulator under scripted random sources against the Lean model and the exact law",
     ),
     "C16": dict(
         category="proof",
-        text="Rational lists: Lean 4 theorems, no sampled step inside them: relation_iff_valuations (prod b_i^e_i = 1 iff all p-adic valuation sums vanish and the exponent sum over the negative bases is even), intKernel_isBasis (the integer kernel computed by unimodular elimination is sound, complete and independent), c16_rational (latticeBasis bs is a Z-basis of the exponent lattice of any list of non-zero rationals), c16_check_iff (the three executable verdicts relationHolds / independent / inIntSpan hold iff the proposed rows are a Z-basis - the judge is exact), c16_partial_trivial (the coprimality shortcut is right when no base is 1) and counterexample theorems for the code as modelled ([4,8], [4,1/2], [9,27,3], [1,2]). The tie to the code is sampled: ExponentLattice(bs).compute_basis() of the working tree runs on corpus + seeded lists (repetitions, units, shared primes with different multiplicities, negatives, reciprocals, k <= 6) and every answer is judged by the verified procedures and compared with the Lean model of the code (kernelAsCoded). Irrational/complex lists (compute_basis_kauers) are a TEST, not a proof: soundness of each row is decided exactly (pair arithmetic in Q(sqrt D), proved exact by relationHoldsQuad_iff; sympy minimal_polynomial for mixed fields), completeness only for exponent vectors inside a box |e_i| <= 4..8; LLL and Faccin's bound are not modelled.",
+        text="Rational lists: Lean 4 theorems, no sampled step inside them: relation_iff_valuations (prod b_i^e_i = 1 iff all p-adic valuation sums vanish and the exponent sum over the negative bases is even); c16_code_correct: the algorithm AS CODED (model latticeAsCoded: is_trivially_empty shortcut, multiplicity/parity system in the order the code builds it, _integer_kernel = unimodular row reduction of [A^T | I] with the code's pivot rule, floor division, swap and row order) returns a Z-basis of the exponent lattice for every list of non-zero rationals (integerKernelAsCoded_isBasis incl. termination of the Euclid loop, isTriviallyEmpty_sound); c16_rational / intKernel_isBasis (an independent verified basis) and c16_check_iff (the executable verdicts relationHolds / independent / inIntSpan hold iff the proposed rows are a Z-basis - the judge is exact). The tie to the code is sampled: ExponentLattice(bs).compute_basis() of the working tree runs on corpus + seeded lists (repetitions, units, shared primes with different multiplicities, negatives, reciprocals, k <= 6); every answer must equal the model's rows one for one and is judged by the verified procedures. Irrational/complex lists (compute_basis_kauers) are a TEST, not a proof: soundness of each row is decided exactly (pair arithmetic in Q(sqrt D), proved exact by relationHoldsQuad_iff; sympy minimal_polynomial for mixed fields), completeness only for exponent vectors inside a box |e_i| <= 4..8; LLL and Faccin's bound are not modelled.",
         design_ref="§4 C16, §2.5, notes/C16.md",
-        note="Trusted: Lean kernel + propext/Classical.choice/Quot.sound; Lean compiler for polar-model; Mathlib's padicValRat/zpow; harness generator and conversion of \"p/q\" strings to sympy numbers; for mixed-field lists sympy minimal_polynomial and 80-digit evalf. The model kernelAsCoded (rref nullspace over Q, truncation, shortcut) is tied to the code only differentially (identical rows on every sampled list). Known findings F4 (astype(int) truncation) and F4b (base 1 dropped by the shortcut) are recorded in known_findings.json and attributed by structural signature + equality with the modelled behaviour + a passing in-memory repair. Exceptions of the Kauers path (TypeError in faccin_bound / rounding) are counted, not judged.",
-        technique="Lean 4 proof (valuation characterisation, verified integer-kernel and span procedures, exact checker) + differential correspondence of the real ExponentLattice against the Lean specification; bounded enumeration test for algebraic bases",
+        note="Trusted: Lean kernel + propext/Classical.choice/Quot.sound; Lean compiler for polar-model; Mathlib's padicValRat/zpow; harness generator and conversion of \"p/q\" strings to sympy numbers; sympy factorint (the model has its own certified trial division); for mixed-field lists sympy minimal_polynomial and 80-digit evalf. The model keeps only the I-part of the rows of [A^T | I] and reads the A^T-entries as dot products (equal by linearity); it is tied to the code differentially (identical rows on every sampled list). F4 / F4b are repaired in /repo (526383e, 41c095b); their inputs are regression cases and a recurrence is a VIOLATION. Exceptions of the Kauers path (TypeError in faccin_bound / rounding) are counted, not judged.",
+        technique="Lean 4 proof (valuation characterisation, correctness of the coded integer-kernel algorithm, exact checker) + row-for-row differential correspondence of the real ExponentLattice against the Lean model; bounded enumeration test for algebraic bases",
     ),
     "C11": dict(
         category="proof",
@@ -43,16 +43,16 @@ CHECKS = {
     ),
     "C13": dict(
         category="proof",
-        text="partial. Proved in Lean 4 (no sorry, axioms propext/Classical.choice/Quot.sound): the product-to-sum identity sin^b z cos^c z = (i^b 2^(b+c))^-1 * sum C(c,k1) C(b,k2) (-1)^(b-k2) e^{i(2(k1+k2)-b-c)z} stated with the coefficient table of the executable model; for every finitely supported (signed) law the formula coded in get_trig_moment (table, division by I^(a+b) 2^(b+c), a-th derivative of the characteristic function, real part) equals sum p_j x_j^a sin^b x_j cos^c x_j, and the formula of get_exp_moment equals the a-th derivative of the mgf; the guard of get_func_moment as coded (partial theorem + counterexample for the \"Expt\" typo); the models of mgf_exists_at for Exponential/Gamma/Laplace decide integrability of e^{tx} f(x). Tied to the code by an exact structural diff: the real get_func_moment runs on a stub distribution with uninterpreted hermitian transforms and the coefficient table of its result is compared with polar-model for all exponent triples up to the tier's bound. NOT proved: the values of the transcendental expectations themselves (closed forms of the transforms of each family, sympy's differentiation/evaluation, rounding to ~20 digits, the trigger/context glue in whole programs); these are compared numerically with mpmath quadrature of the defining integrals and with an independent interpreter on whole programs, with explicit tolerances - evidence, not proof.",
+        text="partial. Proved in Lean 4 (no sorry, axioms propext/Classical.choice/Quot.sound): the product-to-sum identity sin^b z cos^c z = (i^b 2^(b+c))^-1 * sum C(c,k1) C(b,k2) (-1)^(b-k2) e^{i(2(k1+k2)-b-c)z} stated with the coefficient table of the executable model; for every finitely supported (signed) law the formula coded in get_trig_moment (table, division by I^(a+b) 2^(b+c), a-th derivative of the characteristic function, real part) equals sum p_j x_j^a sin^b x_j cos^c x_j, and the formula of get_exp_moment equals the a-th derivative of the mgf; the guard of get_func_moment (coded = documented since /repo e78913c: Sin/Cos together with Exp is rejected, every returned value is the true mixed moment); the models of mgf_exists_at for Exponential/Gamma/Laplace decide integrability of e^{tx} f(x). Tied to the code by an exact structural diff: the real get_func_moment runs on a stub distribution with uninterpreted hermitian transforms and the coefficient table of its result is compared with polar-model for all exponent triples up to the tier's bound. NOT proved: the values of the transcendental expectations themselves (closed forms of the transforms of each family, sympy's differentiation/evaluation, rounding to ~20 digits, the trigger/context glue in whole programs); these are compared numerically with mpmath quadrature of the defining integrals and with an independent interpreter on whole programs, with explicit tolerances - evidence, not proof.",
         design_ref="§4 C13; notes/C13.md",
-        note="Trusted: Lean kernel + propext/Classical.choice/Quot.sound; Lean compiler for polar-model; the stub distribution and sympy's expand used to read the table off the result; mpmath quadrature (two subdivisions, 42 digits) of textbook densities; harness/c13_lib.py (mini-parser, interpreter, factorisation over independent draws); passage from finitely supported laws to laws with a density is paper mathematics. Refusals (AssertionError at frequency 0 for Uniform/DiscreteUniform, NotImplementedError for Categorical) are counted, not violations. Known findings: F5, F131, F132, F133.",
+        note="Trusted: Lean kernel + propext/Classical.choice/Quot.sound; Lean compiler for polar-model; the stub distribution and sympy's expand used to read the table off the result; mpmath quadrature (two subdivisions, 42 digits) of textbook densities; harness/c13_lib.py (mini-parser, interpreter, factorisation over independent draws); passage from finitely supported laws to laws with a density is paper mathematics. Refusals (AssertionError at frequency 0 for Uniform/DiscreteUniform, NotImplementedError for Categorical) are counted, not violations. Known findings: F131, F132, F133 (F5 fixed in /repo e78913c; prepared patches in notes/C13_patches.md).",
         technique="Lean 4 proof of the combination formulas + exact structural correspondence on a stub distribution + numeric oracle (quadrature, independent interpreter)",
     ),
     "C15": dict(
         category="proof",
-        text="partial. Proved in Lean 4 (no sorry; axioms propext/Classical.choice/Quot.sound) about a hand-written model of /repo/bayesnet: the flat index table[row + i*rows] of the `table` notation addresses P(child = i | row-th parent combination in itertools.product order); whatever mix of default/table/entries is given, an accepted CPT - and an accepted file (assembleNet) - has exactly one row per parent combination, each of the child's domain size and summing to 1 within the tolerance; the table, the per-entry (any order, any redundancy) and the default+entries notations of one conditional probability function import the same table; Kahn's sort as coded returns a permutation with parents first whenever its final assertion holds (topoOrder_isTopo); for a well-formed network (rows sum to exactly 1) on which the generator does not fail, one iteration of the generated if/elif/else program started in ANY state ends in a full assignment a with probability prod CPT entries (pointwise) and E g = sum_a joint(a) g(a) for every g of the network variables, hence the joint table sums to 1; the ratio E((x*ind)^k)/E(ind) the exact-inference query asks for equals E(X^k | evidence) for k >= 1 (k = 0 is a proved counterexample, finding F32); E(count)(n) of the sampling-time program equals the recurrence countSeq, countSeq q n = (1-(1-q)^(n+1))/q for q != 0 and tends to 1/q for 0 < q <= 1. Tied to the code differentially on seeded BIF files (valid / rows-within-tolerance / reserved names / single and double structural faults / syntax faults) and the repository's .bif files: BifParser().parse_file vs assembleNet (tables, parents, class of the first error); the text of CodeGenerator.generate_code read by the shared reference semantics vs the joint table; the real CLI action (--exact_inference, --sample_time_until) vs enumeration (final value and per-iteration moments n = 0..3). NOT proved: the lark grammar, the random digits appended on name collisions (checked by rule), Python float summation at the tolerance edge (generator keeps 1e-9 away), and Polar's analysis pipeline itself (C01).",
+        text="partial. Proved in Lean 4 (no sorry; axioms propext/Classical.choice/Quot.sound) about a hand-written model of /repo/bayesnet: the flat index table[row + i*rows] of the `table` notation addresses P(child = i | row-th parent combination in itertools.product order); whatever mix of default/table/entries is given, an accepted CPT - and an accepted file (assembleNet) - has exactly one row per parent combination, each of the child's domain size and summing to 1 within the tolerance; the table, the per-entry (any order, any redundancy) and the default+entries notations of one conditional probability function import the same table; Kahn's sort as coded returns a permutation with parents first whenever its final assertion holds (topoOrder_isTopo); for a well-formed network (rows sum to exactly 1) on which the generator does not fail, one iteration of the generated if/elif/else program started in ANY state ends in a full assignment a with probability prod CPT entries (pointwise) and E g = sum_a joint(a) g(a) for every g of the network variables, hence the joint table sums to 1; the ratio E((x*ind)^k)/E(ind) the exact-inference query asks for equals E(X^k | evidence) for every k >= 0 (for k = 0 the repaired code asks E(ind) as numerator; the model follows it); E(count)(n) of the sampling-time program equals the recurrence countSeq, countSeq q n = (1-(1-q)^(n+1))/q for q != 0 and tends to 1/q for 0 < q <= 1. Tied to the code differentially on seeded BIF files (valid / rows-within-tolerance / reserved names / single and double structural faults / syntax faults) and the repository's .bif files: BifParser().parse_file vs assembleNet (tables, parents, class of the first error); the text of CodeGenerator.generate_code read by the shared reference semantics vs the joint table; the real CLI action (--exact_inference, --sample_time_until) vs enumeration (final value and per-iteration moments n = 0..3). NOT proved: the lark grammar, the random digits appended on name collisions (checked by rule), Python float summation at the tolerance edge (generator keeps 1e-9 away), and Polar's analysis pipeline itself (C01).",
         design_ref="§4 C15; notes/C15.md",
-        note="Trusted: Lean kernel + propext/Classical.choice/Quot.sound; Lean compiler for polar-model; harness/c15gen.py (BIF generator, printer and reader, reader of the generated Polar text), exact-decimal reading of printed floats, sympy exact evaluation of Polar's closed forms at integers, Polar/Sem.lean reference semantics for the law of the generated text. Time-outs of Polar's recurrence builder on networks with many 4-valued parents are counted, never violations. Known findings: F30 (sampling-time limit not taken), F31 (sanitised names that are reserved words), F32 (target power 0); F33/F34 (remainder probability / probability check in binary floating point) were found by this check and are fixed in /repo.",
+        note="Trusted: Lean kernel + propext/Classical.choice/Quot.sound; Lean compiler for polar-model; harness/c15gen.py (BIF generator, printer and reader, reader of the generated Polar text), exact-decimal reading of printed floats, sympy exact evaluation of Polar's closed forms at integers, Polar/Sem.lean reference semantics for the law of the generated text. Time-outs of Polar's recurrence builder on networks with many 4-valued parents are counted, never violations. Known finding: F31 (sanitised names that are reserved words; tested patch in notes/C15_patches.md). F30 (sampling-time limit not taken), F32 (target power 0), F33/F34 (remainder probability / probability check in binary floating point) were found by this check and are fixed in /repo; their recurrence is a violation.",
         technique="Lean 4 proof (mixed-radix index, assembly invariants, invariant proof of Kahn's algorithm, path-probability induction along a topological order, partition of outcome lists, geometric sum and limit) + differential correspondence of parser, code generator and both queries against the Lean model and the enumerated joint law",
     ),
 }
